@@ -10,12 +10,29 @@
   Reading guide: `runOps step s ops` runs a history on the model and stops at the first operation that raises;
   `Spec.run specStep l ops = some l'` says that every argument in the history is in range and that the abstract
   sequence ends as `l'`.
+
+  Two model levels.  The STORE level (Cello/SeqStore.lean: `ArrS` = block of record cells with `memmove` as an index-range
+  copy and `realloc` as a new block; `LstS` = heap of `prev`/`next`/`val` nodes with `List_Link` / `List_Unlink` and the
+  two-ended walk; `TupS` = block of pointer cells ending in the Terminal cell) is what the driver runs and what is
+  compared with the C representation after every operation.  The LIST level (Cello/Seq.lean: `Arr`, `Lst`, `Tup`) is where
+  those mechanisms are already list operations.  The `C04_store_*` theorems connect them: every store-level step IS the
+  list-level step (`…_simulates`), so `memmove = take/drop`, `relinking = insertion/removal`, `prev-walk = reverse` and
+  `nitems ≤ nslots` are theorems about cells and links, not definitions; and no step ever reads an unwritten or
+  out-of-block cell, follows a NULL link or touches a freed node (`…_never_ub`).  The `C04_refines_list_*` theorems then
+  take the list level to the abstract sequence, and `C04_store_refines_list_*` state the composition.
+
+  Arguments are VALUES in `Op`: an element passed to push / push_at / set / concat / assign is not a record of the container
+  it is passed to.  The aliased calls are modelled separately (section "aliased arguments"): assign(x, x) (holds since
+  fix a3140e4), concat(x, x) (known finding KF-C04-self-concat), push(a, get(a, k)) / push_at(a, get(a, k), i) on an Array
+  (known finding KF-C04-push-own-element).  Tuple elements are object pointers other than the `Terminal` object
+  (`C04_tuple_terminal_element`), Tuples are on the heap (`C04_tuple_not_on_heap` for the others).
 -/
 import CelloProofs.Lemmas.SeqRun
 import CelloProofs.Lemmas.SortPerm
 import CelloProofs.Lemmas.SortSorted
 import CelloProofs.Lemmas.SeqTupDistinct
 import CelloProofs.Lemmas.SeqAlias
+import CelloProofs.Lemmas.SeqStoreRun
 
 namespace Cello.Seq
 variable {α : Type}
@@ -26,7 +43,8 @@ variable {α : Type}
     assign whose arguments are in range, started from any Array state, nothing was raised, the Array holds exactly the
     abstract sequence, and every observation agrees with it: `len`, `get` for every index (positive and negative
     indices return the element of the abstract sequence, every other index raises `IndexOutOfBoundsError`), `mem`,
-    and iteration forwards and backwards through the iterator protocol. -/
+    and iteration forwards and backwards through the iterator protocol.  (`x` in `push x` / `pushAt x i` is a value: not a
+    record of this Array — for that case see `C04_push_own_element_*`.) -/
 theorem C04_refines_list_array [BEq α] (ops : List (Op α)) (a : Arr α) (l' : List α)
     (h : Spec.run Spec.arrStep a.items ops = some l') :
     let r := runOps Arr.step a ops
@@ -65,6 +83,57 @@ theorem C04_capacity [BEq α] (xs : List α) (ops : List (Op α)) :
 /-- … and a copy starts within capacity too -/
 theorem C04_capacity_copy (a : Arr α) : a.copy.CapOk := by simp [Arr.CapOk, Arr.copy, Arr.assign]
 
+/-! ### Array, store level: cells, `memmove`, `realloc` -/
+
+/-- **The cells do what the list-level Array does (T1).** From any store state `s` that holds a list-level Array `a`
+    (`ArrS.Abs`: capacity = number of cells, counter, the first `nitems` cells are written and hold the items — true of
+    `Array_New`, `ArrS.new_abs`), for EVERY history — arguments in range or not — run to the first exception: the
+    store-level run (index normalisation → bounds check → `nitems++` or `nitems--` → `Array_Reserve_More/Less` = `realloc` into a new
+    block → `memmove` of a cell range → write) ends in a state that holds exactly what the list-level run ends in, with
+    the same outcome.  This is what makes "`memmove` of the tail = `take k ++ x :: drop k`" a theorem. -/
+theorem C04_store_array_simulates [BEq α] (ops : List (Op α)) (s : ArrS α) (a : Arr α) (h : s.Abs a) :
+    (runOps ArrS.step s ops).1.Abs (runOps Arr.step a ops).1 ∧ (runOps ArrS.step s ops).2 = (runOps Arr.step a ops).2 :=
+  runOps_sim ArrS.step Arr.step ArrS.Abs (fun _ _ op h => ArrS.step_sim h op) ops s a h
+
+/-- **No access outside the block, no read of an unwritten cell (T1)** — the capacity property as a statement about
+    cells: in every state reachable from a new Array by any history whatsoever (exceptions caught, history continued) the
+    next operation, whatever it is, does not produce `.ub` (every cell read was written since the last (re)allocation,
+    every cell read, written or moved lies inside the block of `nslots` cells), and `nitems ≤ nslots`. -/
+theorem C04_store_array_never_ub [BEq α] (xs : List α) (ops : List (Op α)) (op : Op α) :
+    let s := ops.foldl (fun s op => (s.step op).1) (ArrS.new xs)
+    (s.step op).2 ≠ .ub ∧ s.nitems ≤ s.cells.size ∧ ∃ l, s.items? = some l := by
+  intro s
+  have habs : s.Abs (ops.foldl (fun a op => (a.step op).1) (Arr.new xs)) :=
+    foldl_sim ArrS.step Arr.step ArrS.Abs (fun _ _ op h => ArrS.step_sim h op) ops _ _ (ArrS.new_abs xs)
+  refine ⟨?_, ?_, _, ArrS.items?_eq habs⟩
+  · rw [(ArrS.step_sim habs op).2]; exact Arr.step_ne_ub _ op
+  · rw [habs.len]; exact habs.cell.le_size
+
+/-- **C04 for Array, cells to abstract sequence (T1)**: the composition.  After every in-range history the cells in use are
+    exactly the abstract sequence, and the observations made THROUGH THE CELLS — `len` (the counter), `get` with positive
+    and negative indices (a cell read), `mem` (the scan), iteration in both directions (record addresses) — agree with it. -/
+theorem C04_store_refines_list_array [BEq α] (ops : List (Op α)) (s : ArrS α) (a : Arr α) (habs : s.Abs a) (l' : List α)
+    (h : Spec.run Spec.arrStep a.items ops = some l') :
+    let r := runOps ArrS.step s ops
+    r.2 = .ok () ∧ r.1.items? = some l' ∧ r.1.nitems = l'.length ∧
+    (∀ i, r.1.get i = match Spec.get l' i with
+        | some x => .ok x
+        | none => .raised .indexOutOfBounds) ∧
+    (∀ x, r.1.mem x = .ok (Spec.mem l' x)) ∧
+    r.1.iterFwd = some l' ∧ r.1.iterBwd = some l'.reverse := by
+  intro r
+  obtain ⟨hs, ho⟩ := C04_store_array_simulates ops s a habs
+  obtain ⟨g1, g2, g3, g4, g5, g6, g7⟩ := C04_refines_list_array ops a l' h
+  refine ⟨by rw [ho]; exact g1, by rw [ArrS.items?_eq hs, g2], by rw [hs.len, g2], ?_, ?_, ?_, ?_⟩
+  · intro i; rw [ArrS.get_sim hs i]; exact g4 i
+  · intro x; rw [ArrS.mem_sim hs x, g5 x]
+  · rw [ArrS.iterFwd_sim hs]; exact g6
+  · rw [ArrS.iterBwd_sim hs]; exact g7
+
+/-- a copy is a fresh block that holds the same items -/
+theorem C04_store_array_copy (s : ArrS α) (a : Arr α) (h : s.Abs a) : s.copy.1.Abs a.copy ∧ s.copy.2 = .ok () :=
+  ArrS.copy_sim h
+
 /-! ## List -/
 
 /-- **C04 for List (T1).** The same for a List whose counter field agrees with its chain (true of a new List, and
@@ -101,6 +170,52 @@ theorem C04_list_out_of_range [BEq α] [Inhabited α] (l : Lst α) (hinv : l.Inv
 theorem C04_list_new_inv (xs : List α) : ((Lst.empty : Lst α).concat xs).1.Inv ∧ (⟨xs, xs.length⟩ : Lst α).copy.Inv := by
   simp [Lst.concat, Lst.copy, Lst.assign, Lst.clear, Lst.foldl_push, Lst.Inv, Lst.empty]
 
+/-! ### List, store level: nodes, `List_Link` / `List_Unlink`, the two-ended walk -/
+
+/-- **The links do what the list-level List does (T1).** From any store state whose chain of nodes (`head` → `next` … →
+    `tail`, every `prev` pointing back, all nodes distinct and allocated: `LstS.Abs`) holds a list-level List, for EVERY
+    history run to the first exception: the store-level run (`List_At` walking `next` from `head` or `prev` from `tail`,
+    `List_Link` with its head / tail / neighbour cases, `List_Unlink` with its four cases, free) ends in a state whose
+    chain holds exactly what the list-level run ends in, with the same outcome. -/
+theorem C04_store_list_simulates [BEq α] [Inhabited α] (ops : List (Op α)) (s : LstS α) (l : Lst α) (h : s.Abs l) :
+    (runOps LstS.step s ops).1.Abs (runOps Lst.step l ops).1 ∧ (runOps LstS.step s ops).2 = (runOps Lst.step l ops).2 :=
+  runOps_sim LstS.step Lst.step LstS.Abs (fun _ _ op h => LstS.step_sim h op) ops s l h
+
+/-- **No NULL link followed, no freed node touched (T1)**: in every state reachable from a new List by any history
+    whatsoever (exceptions caught) the next operation does not produce `.ub`, and the chain is intact: forward iteration
+    along `next` and backward iteration along `prev` read the same items, one the reverse of the other. -/
+theorem C04_store_list_never_ub [BEq α] [Inhabited α] (xs : List α) (ops : List (Op α)) (op : Op α) :
+    let s := ops.foldl (fun s op => (s.step op).1) (LstS.new xs).1
+    (s.step op).2 ≠ .ub ∧ ∃ items, s.iterFwd = some items ∧ s.iterBwd = some items.reverse ∧ s.nitems = items.length := by
+  intro s
+  have habs : s.Abs (ops.foldl (fun l op => (l.step op).1) (Lst.empty.concat xs).1) :=
+    foldl_sim LstS.step Lst.step LstS.Abs (fun _ _ op h => LstS.step_sim h op) ops _ _ (LstS.new_abs xs).1
+  refine ⟨?_, _, LstS.iterFwd_sim habs, LstS.iterBwd_sim habs, ?_⟩
+  · rw [(LstS.step_sim habs op).2]; exact Lst.step_ne_ub _ habs.inv op
+  · obtain ⟨cells, _, h1, h2, h3⟩ := habs
+    rw [h3, h1]; simp
+
+/-- **C04 for List, links to abstract sequence (T1)**: the composition; observations through the nodes. -/
+theorem C04_store_refines_list_list [BEq α] [Inhabited α] (ops : List (Op α)) (s : LstS α) (l : Lst α) (habs : s.Abs l)
+    (l' : List α) (h : Spec.run Spec.lstStep l.items ops = some l') :
+    let r := runOps LstS.step s ops
+    r.2 = .ok () ∧ r.1.nitems = l'.length ∧
+    (∀ i, r.1.get i = match Spec.get l' i with
+        | some x => .ok x
+        | none => .raised .indexOutOfBounds) ∧
+    (∀ x, r.1.mem x = .ok (Spec.mem l' x)) ∧
+    r.1.iterFwd = some l' ∧ r.1.iterBwd = some l'.reverse := by
+  intro r
+  obtain ⟨hs, ho⟩ := C04_store_list_simulates ops s l habs
+  obtain ⟨g1, g2, g3, g4, g5, g6, g7, g8⟩ := C04_refines_list_list ops l habs.inv l' h
+  have hni : r.1.nitems = (runOps Lst.step l ops).1.nitems := by
+    obtain ⟨cells, _, _, h2, h3⟩ := hs; rw [h3, h2]
+  refine ⟨by rw [ho]; exact g1, by rw [hni]; exact g4, ?_, ?_, ?_, ?_⟩
+  · intro i; rw [LstS.get_sim hs i]; exact g5 i
+  · intro x; rw [LstS.mem_sim hs x, g6 x]
+  · rw [LstS.iterFwd_sim hs, g2]
+  · rw [LstS.iterBwd_sim hs, g2]
+
 /-! ## Tuple -/
 
 /-- **C04 for Tuple (T1): contents, len, get.** After every in-range history the Tuple holds exactly the abstract
@@ -126,6 +241,73 @@ theorem C04_tuple_out_of_range [BEq α] (t : Tup α) (op : Op α) (hop : op.iter
     (h : Spec.tupStep t.items op = none) :
     (t.step op).1 = t ∧ ∃ e, (t.step op).2 = .raised e := Tup.step_out_of_range t op hop h
 
+/-! ### Tuple, store level: pointer cells and the Terminal cell -/
+
+/-- **The cell block does what the list-level Tuple does (T1).** From any heap Tuple whose block is exactly its items followed
+    by the Terminal cell (`TupS.Abs`; true of `Tuple_New`, `TupS.new_abs`), for EVERY history run to the first exception:
+    the store-level run (`Tuple_Len` scanning for Terminal, `realloc` to the exact new size, `memmove` of the tail
+    INCLUDING the Terminal cell, the cell write) ends in a block that is exactly the items of the list-level result
+    followed by Terminal, with the same outcome. -/
+theorem C04_store_tuple_simulates [BEq α] (ops : List (Op α)) (s : TupS α) (t : Tup α) (h : s.Abs t) :
+    (runOps TupS.step s ops).1.Abs (runOps Tup.step t ops).1 ∧ (runOps TupS.step s ops).2 = (runOps Tup.step t ops).2 :=
+  runOps_sim TupS.step Tup.step TupS.Abs (fun _ _ op h => TupS.step_sim h op) ops s t h
+
+/-- **The scan for Terminal never leaves the block (T1)**: in every state reachable from a new heap Tuple by any history
+    whatsoever (exceptions caught) the next operation does not produce `.ub`, the block has exactly `len + 1` cells and
+    `Tuple_Len` finds the Terminal in the last one. -/
+theorem C04_store_tuple_never_ub [BEq α] (xs : List α) (ops : List (Op α)) (op : Op α) :
+    let s := ops.foldl (fun s op => (s.step op).1) (TupS.new xs)
+    (s.step op).2 ≠ .ub ∧ ∃ n, s.len = some n ∧ s.cells.size = n + 1 := by
+  intro s
+  have habs : s.Abs (ops.foldl (fun t op => (t.step op).1) ⟨xs⟩) :=
+    foldl_sim TupS.step Tup.step TupS.Abs (fun _ _ op h => TupS.step_sim h op) ops _ _ (TupS.new_abs xs)
+  refine ⟨?_, _, TupS.len_sim habs, habs.size⟩
+  rw [(TupS.step_sim habs op).2]; exact Tup.step_ne_ub _ op
+
+/-- **C04 for Tuple, cells to abstract sequence (T1)**: the composition for contents, `len` and `get`; and iteration / `mem`
+    through the cells (`Tuple_Iter_Next` scanning for the current pointer) are, for every fuel and every Tuple — distinct
+    pointers or not — what the list-level model gives, so `C04_tuple_iteration_partial` / `C04_tuple_history_iteration`
+    (and the divergence of F13) carry over to the cells. -/
+theorem C04_store_refines_list_tuple [BEq α] (ops : List (Op α)) (s : TupS α) (t : Tup α) (habs : s.Abs t) (l' : List α)
+    (h : Spec.run Spec.tupStep t.items ops = some l') :
+    let r := runOps TupS.step s ops
+    r.2 = .ok () ∧ r.1.items? = some l' ∧ r.1.len = some l'.length ∧ r.1.cells.size = l'.length + 1 ∧
+    (∀ i, r.1.get i = match Spec.get l' i with
+        | some x => .ok x
+        | none => .raised .indexOutOfBounds) ∧
+    (∀ (ident : α → Nat) (fuel : Nat),
+        r.1.iterFwd ident fuel = (runOps Tup.step t ops).1.iterFwd ident fuel ∧
+        r.1.iterBwd ident fuel = (runOps Tup.step t ops).1.iterBwd ident fuel ∧
+        ∀ x, r.1.mem ident x fuel = (runOps Tup.step t ops).1.mem ident x fuel) := by
+  intro r
+  obtain ⟨hs, ho⟩ := C04_store_tuple_simulates ops s t habs
+  obtain ⟨g1, g2, g3, g4⟩ := C04_refines_list_tuple ops t l' h
+  refine ⟨by rw [ho]; exact g1, by rw [TupS.items?_eq hs, g2], by rw [TupS.len_sim hs, g3], by rw [hs.size, g2], ?_, ?_⟩
+  · intro i; rw [TupS.get_sim hs i]; exact g4 i
+  · intro ident fuel
+    exact ⟨(TupS.iter_sim hs.cells ident fuel).1, (TupS.iter_sim hs.cells ident fuel).2, fun x => TupS.mem_sim hs.cells ident x fuel⟩
+
+/-- **`Terminal` stored as an element ends the Tuple there.**  The theorems above quantify over element values `x : α`,
+    i.e. pointers to objects OTHER than `Terminal`.  If the `Terminal` object itself is stored with `set(t, i, Terminal)`
+    (`i` in range), the call succeeds and `Tuple_Len` now stops at cell `i`: the items from `i` on are lost (the block keeps
+    its size).  Concretely `set([1,2,3], 1, Terminal)` leaves length 1, and `push([1,2,3], Terminal)` leaves length 3 in a
+    block of 5 cells. -/
+theorem C04_tuple_terminal_element (s : TupS α) (t : Tup α) (h : s.Abs t) (i : Int) (k : Nat)
+    (hk : Spec.idx t.items.length i = some k) :
+    (∃ s', s.setCell i .term = (s', .ok ()) ∧ s'.len = some k ∧ s'.cells.size = s.cells.size) ∧
+    ((TupS.new [1, 2, 3]).setCell 1 .term).1.len = some 1 ∧
+    ((TupS.new [1, 2, 3]).pushCell .term).1.len = some 3 ∧ ((TupS.new [1, 2, 3]).pushCell .term).1.cells.size = 5 :=
+  ⟨TupS.setCell_term_truncates h.cells i k hk, by decide, by decide, by decide⟩
+
+/-- **Tuples that are not on the heap** (`tuple(…)` on the stack, static Tuples): every operation that would reallocate the
+    block — push, append, pop, push_at, pop_at, rem, concat, resize, assign (with at least one item when the source is
+    iterator-only) — raises (its own bounds error where the C code checks that first, else `ValueError`) and leaves the
+    block as it was; "started from any Tuple state" in the theorems above means any HEAP Tuple state. -/
+theorem C04_tuple_not_on_heap [BEq α] (s : TupS α) (t : Tup α) (h : s.Cells t) (hs : s.onHeap = false) (op : Op α)
+    (hop : match op with
+      | .set _ _ => False | .sort _ => False | .assign ys false => ys ≠ [] | _ => True) :
+    (s.step op).1 = s ∧ ∃ e, (s.step op).2 = .raised e := TupS.stack_refuses h hs op hop
+
 /-- The full statement for Tuple iteration and `mem` (which is implemented with `foreach`): in *every* Tuple state the
     iterator protocol, given enough steps, yields the stored sequence.  It is FALSE for the code as it is (known
     finding F13, `C04_tuple_iteration_refuted`): `Tuple_Iter_Next` finds its position by pointer identity. -/
@@ -141,7 +323,8 @@ theorem C04_tuple_iteration_partial [BEq α] (ident : α → Nat) (t : Tup α) (
     (∀ x, t.mem ident x fuel = some (Spec.mem t.items x)) :=
   ⟨Tup.iterFwd_eq ident t hd fuel hf, Tup.iterBwd_eq ident t hd fuel hf, fun x => Tup.mem_eq ident t hd x fuel hf⟩
 
-/-- every operation of the history stores only pointers that the Tuple does not hold at that moment -/
+/-- every operation of the history stores only pointers that the Tuple does not hold at that moment (`set(t, i, x)` may store
+    the pointer that cell `i` already holds) -/
 def FreshRun [BEq α] (ident : α → Nat) : List α → List (Op α) → Prop
   | _, [] => True
   | l, op :: ops => FreshOp ident l op ∧ ∀ l', Spec.tupStep l op = some l' → FreshRun ident l' ops
@@ -176,6 +359,15 @@ theorem C04_tuple_history_iteration [BEq α] (ident : α → Nat) (ops : List (O
   rw [hitems] at g1 g2 g3
   exact ⟨hdist, g1, g2, g3⟩
 
+/-- **`mem` before the cycle (what F13 leaves intact).**  In ANY Tuple — repeated pointers or not — `mem` returns `true` when an
+    element equal to the argument sits at a position up to which the stored pointers are still pairwise distinct (only
+    elements behind the second occurrence of a pointer are out of reach: `mem [7,7,8] 8` never answers). -/
+theorem C04_tuple_mem_before_cycle [BEq α] (ident : α → Nat) (t : Tup α) (x : α) (p : Nat) (hp : p < t.items.length)
+    (hx : (t.items[p] == x) = true) (hnd : ((t.items.take (p + 1)).map ident).Nodup) (fuel : Nat) (hf : p + 1 ≤ fuel) :
+    t.mem ident x fuel = some true := Tup.mem_dup_true_prefix ident t x p hp hx hnd fuel hf
+
+example : (⟨[7, 7, 8]⟩ : Tup Nat).mem id 7 10 = some true ∧ (⟨[7, 7, 8]⟩ : Tup Nat).mem id 8 100 = none := by decide
+
 /-- **F13 refuted witness**: the Tuple `[x, x]` — `foreach` never terminates, whatever the number of steps -/
 theorem C04_tuple_iteration_refuted : ¬ C04_tuple_iteration_statement := by
   intro h
@@ -191,25 +383,38 @@ theorem C04_copy (a : Arr α) (l : Lst α) (t : Tup α) :
 /-! ## rem and sort -/
 
 /-- **rem deletes the first element equal to its argument** (all three types: same abstract operation; for Tuple the
-    test is `eq(x, item)`, see `Spec.tupStep`): if the sequence is `pre ++ y :: post` with `y` equal to `x` and nothing
-    in `pre` equal to `x`, then after `rem x` it is `pre ++ post` and nothing was raised. -/
+    test is `eq(x, item)` — the argument order of `Tuple_Rem` — so its hypotheses are stated with `x == z`): if the
+    sequence is `pre ++ y :: post` with `y` equal to `x` and nothing in `pre` equal to `x`, then after `rem x` it is
+    `pre ++ post` and nothing was raised.  (Through `C04_store_*_simulates` the same holds for the cells / links.) -/
 theorem C04_rem_first [BEq α] [Inhabited α] (pre post : List α) (y x : α)
     (hpre : ∀ z ∈ pre, (z == x) = false) (hy : (y == x) = true) :
     (∀ a : Arr α, a.items = pre ++ y :: post → ((a.step (.rem x)).1.items = pre ++ post ∧ (a.step (.rem x)).2 = .ok ())) ∧
-    (∀ l : Lst α, l.Inv → l.items = pre ++ y :: post → ((l.step (.rem x)).1.items = pre ++ post ∧ (l.step (.rem x)).2 = .ok ())) := by
+    (∀ l : Lst α, l.Inv → l.items = pre ++ y :: post → ((l.step (.rem x)).1.items = pre ++ post ∧ (l.step (.rem x)).2 = .ok ())) ∧
+    (∀ t : Tup α, (∀ z ∈ pre, (x == z) = false) → (x == y) = true → t.items = pre ++ y :: post →
+      ((t.step (.rem x)).1.items = pre ++ post ∧ (t.step (.rem x)).2 = .ok ())) := by
   have hs : ∀ items : List α, items = pre ++ y :: post → (if Spec.mem items x = true then some (items.erase x) else none) = some (pre ++ post) := by
     intro items hi
     have hm : Spec.mem items x = true := by rw [hi]; exact any_first pre post y x hy
     rw [if_pos hm, hi, erase_first pre post y x hpre hy]
-  constructor
+  refine ⟨?_, ?_, ?_⟩
   · intro a ha
     have := Arr.step_refines a (.rem x) (pre ++ post) (by simp only [Spec.arrStep]; exact hs _ ha)
     exact ⟨this.2, this.1⟩
   · intro l hinv hl
     have := Lst.step_refines l hinv (.rem x) (pre ++ post) (by simp only [Spec.lstStep]; exact hs _ hl)
     exact ⟨this.2.1, this.1⟩
+  · intro t hpre' hy' ht
+    have hany : t.items.any (fun z => x == z) = true := by rw [ht]; simp [hy']
+    have herase : t.items.eraseP (fun z => x == z) = pre ++ post := by
+      rw [ht, List.eraseP_append_right _ (by intro z hz; simp [hpre' z hz])]
+      simp [hy']
+    have := Tup.step_refines t (.rem x) (pre ++ post) (by simp only [Spec.tupStep, hany, if_true, herase])
+    exact ⟨this.2, this.1⟩
 
-/-- **sort leaves a permutation (T1)** — for every comparison function whatsoever (the algorithm only swaps) -/
+/-- **sort leaves a permutation (T1)** — for every comparison function whatsoever (the algorithm only swaps).  Element types:
+    `swap` (Assign.c) exchanges the bytes of two records; an Array whose element type has `size` 0 or its own `Swap`
+    instance would go through `TypeError` / user code instead — not an element type of this model (`.ok ()` below is for
+    types with a positive size and the default swap: Int, String, the record types of the harness). -/
 theorem C04_sort_perm (f : α → α → Bool) (a : Arr α) (t : Tup α) :
     (a.sortBy f).1.items.Perm a.items ∧ (t.sortBy f).1.items.Perm t.items ∧
     (a.sortBy f).2 = .ok () ∧ (t.sortBy f).2 = .ok () :=
@@ -325,6 +530,110 @@ theorem C04_self_alias_partial (a : Arr α) (l : Lst α) (t : Tup α) :
     unfold Tup.concatSelf
     rw [if_pos this]
 
+/-! ### an Array's own element as the argument of push / push_at (known finding KF-C04-push-own-element) -/
+
+/-- full statement: `push(a, get(a, k))` and `push_at(a, get(a, k), i)` do what `push(a, v)` / `push_at(a, v, i)` do for the
+    value `v` of element `k` -/
+def C04_push_own_element_statement : Prop :=
+  ∀ (a : Arr Nat), a.CapOk → ∀ (k i : Int) (v : Nat), a.get k = .ok v →
+    a.pushElem k = a.push v ∧ a.pushAtElem k i = a.pushAt v i
+
+/-- **refuted** on three witnesses: `push(a, get(a, 0))` on `[1,2,3]` with capacity 3 reads the element through a pointer
+    into the block that `realloc` has just replaced (`.ub`: use after free); with spare capacity `push_at(a, get(a, 1), 1)`
+    inserts the ZEROED record (`[1,0,2,3]`) and `push_at(a, get(a, 2), 0)` inserts the element that was shifted into
+    record 2 (`[2,1,2,3]`).  Witness corpus/kf_c04_push_own.ops. -/
+theorem C04_push_own_element_refuted :
+    ((⟨[1, 2, 3], 3⟩ : Arr Nat).pushElem 0).2 = .ub ∧
+    ((⟨[1, 2, 3], 8⟩ : Arr Nat).pushAtElem 1 1).1.items = [1, 0, 2, 3] ∧
+    ((⟨[1, 2, 3], 8⟩ : Arr Nat).pushAtElem 2 0).1.items = [2, 1, 2, 3] ∧
+    ¬ C04_push_own_element_statement := by
+  refine ⟨by decide, by decide, by decide, ?_⟩
+  intro h
+  have := congrArg (·.2) (h ⟨[1, 2, 3], 3⟩ (by simp [Arr.CapOk]) 0 0 1 (by decide)).1
+  revert this; decide
+
+/-- **what does hold** (partial; missing for the full statement: the two regions refuted above): with spare capacity
+    (`nitems < nslots`: no `realloc`) `push(a, get(a, k))` is `push(a, v)`; and if moreover the insertion position lies
+    strictly behind element `k` (after normalisation), `push_at(a, get(a, k), i)` is `push_at(a, v, i)`. -/
+theorem C04_push_own_element_partial [Inhabited α] (a : Arr α) (k i : Int) (v : α) (hv : a.get k = .ok v)
+    (hcap : a.nitems < a.nslots) :
+    a.pushElem k = a.push v ∧
+    ((normIdx a.nitems k).toNat < (pushIdx a.nitems i).toNat → a.pushAtElem k i = a.pushAt v i) := by
+  have hn : a.nitems = a.items.length := rfl
+  have hget := hv
+  unfold Arr.get at hget
+  simp only at hget
+  by_cases hc : normIdx a.nitems k < 0 ∨ normIdx a.nitems k ≥ (a.nitems : Int)
+  · rw [if_pos hc] at hget; cases hget
+  · rw [if_neg hc] at hget
+    have hkl : (normIdx a.nitems k).toNat < a.items.length := by omega
+    rw [List.getElem?_eq_getElem hkl] at hget
+    simp only [Res.ok.injEq] at hget
+    constructor
+    · unfold Arr.pushElem; rw [hv]; simp only; rw [if_neg (by omega)]
+    · intro hlt
+      unfold Arr.pushAtElem Arr.pushAt
+      rw [hv]; simp only
+      by_cases hci : pushIdx a.nitems i < 0 ∨ pushIdx a.nitems i > (a.nitems : Int)
+      · rw [if_pos hci, if_pos hci]
+      · rw [if_neg hci, if_neg hci, if_neg (by omega)]
+        have hjl : (pushIdx a.nitems i).toNat ≤ a.items.length := by omega
+        generalize (pushIdx a.nitems i).toNat = jj at *
+        generalize (normIdx a.nitems k).toNat = kk at *
+        have e1 : (a.items.take jj ++ default :: a.items.drop jj)[kk]? = some v := by
+          rw [List.getElem?_append_left (by simp; omega), List.getElem?_take, if_pos hlt,
+            List.getElem?_eq_getElem hkl, hget]
+        rw [e1]
+        simp only
+        have hrm : reserveMore (a.nitems + 1) a.nslots = a.nslots := by unfold reserveMore; rw [if_neg (by omega)]
+        rw [hrm]
+        congr 2
+        have hlen : (a.items.take jj).length = jj := by simp; omega
+        rw [List.set_append_right _ _ (by omega), hlen, Nat.sub_self]
+        rfl
+
+/-- the formulas of `Arr.pushElem` / `Arr.pushAtElem` are not assumptions of the list-level model: they are what the CELLS do
+    (pointer into the block, `realloc` → new block, `memmove`, zeroing of record `i`, read through the pointer, write) -/
+theorem C04_store_push_own_element [Inhabited α] (s : ArrS α) (a : Arr α) (h : s.Abs a) (k i : Int) :
+    ((s.pushElem k).1.Abs (a.pushElem k).1 ∧ (s.pushElem k).2 = (a.pushElem k).2) ∧
+    ((s.pushAtElem k i).1.Abs (a.pushAtElem k i).1 ∧ (s.pushAtElem k i).2 = (a.pushAtElem k i).2) :=
+  ⟨ArrS.pushElem_sim h k, ArrS.pushAtElem_sim h k i⟩
+
+/-- a List copies the element into the new node before it links anything: passing its own element is passing the value -/
+theorem C04_list_push_own_element (l : Lst α) (k i : Int) (v : α) (hv : l.get k = .ok v) :
+    l.pushElem k = l.push v ∧ l.pushAtElem k i = l.pushAt v i := by
+  unfold Lst.pushElem Lst.pushAtElem; rw [hv]; exact ⟨rfl, rfl⟩
+
+/-! ### assign from an iterator-only source (known finding KF-C04-tuple-assign-iter) -/
+
+/-- full statement: `assign(x, filter(…))` replaces the contents by the items the iteration yields -/
+def C04_assign_iter_statement : Prop :=
+  (∀ (a : Arr Nat) (ys : List Nat), (a.assign ys false).1.items = ys ∧ (a.assign ys false).2 = .ok ()) ∧
+  (∀ (t : Tup Nat) (ys : List Nat), (t.assign ys false).1.items = ys ∧ (t.assign ys false).2 = .ok ())
+
+/-- **refuted for Tuple**: `Tuple_Assign` has no clear in its iterator branch: `assign([10,20], filter([1,2,3,4], even))`
+    leaves `[10,20,2,4]`.  Witness corpus/kf_c04_tuple_assign_iter.ops. -/
+theorem C04_assign_iter_refuted :
+    ((⟨[10, 20]⟩ : Tup Nat).assign [2, 4] false).1.items = [10, 20, 2, 4] ∧ ¬ C04_assign_iter_statement := by
+  refine ⟨rfl, ?_⟩
+  intro h
+  have := (h.2 ⟨[10, 20]⟩ [2, 4]).1
+  revert this; decide
+
+/-- **what does hold** (partial; missing: non-empty Tuple targets): an Array is cleared first, so the statement holds for
+    every Array (and it stays within capacity); a Tuple gets the items appended, which is the statement exactly when it
+    was empty (the documented use `var y = new(Tuple); assign(y, filter(…))`); a List has no iterator branch and raises
+    `ClassError` after it was cleared. -/
+theorem C04_assign_iter_partial (a : Arr α) (l : Lst α) (t : Tup α) (ys : List α) :
+    ((a.assign ys false).1.items = ys ∧ (a.assign ys false).2 = .ok () ∧ (a.assign ys false).1.CapOk) ∧
+    ((t.assign ys false).1.items = t.items ++ ys ∧ (t.items = [] → (t.assign ys false).1.items = ys)) ∧
+    l.assign ys false = (l.clear, .raised .classError) := by
+  refine ⟨⟨?_, rfl, ?_⟩, ⟨rfl, ?_⟩, rfl⟩
+  · simp [Arr.assign, Arr.foldl_push_items, Arr.clear]
+  · simp only [Arr.assign, Bool.false_eq_true, if_false]
+    exact Arr.foldl_push_capOk ys _ (by simp [Arr.CapOk, Arr.clear])
+  · intro he; simp [Tup.assign, he]
+
 /-! ## non-vacuity -/
 
 /-- a concrete in-range Array history (negative indices, append through `push_at -1`, duplicates, `rem`) -/
@@ -353,5 +662,23 @@ example : (∀ x y : Int, decide (x / 256 < y / 256) = true → decide (y / 256 
 
 /-- a Tuple state with distinct pointers -/
 example : (⟨[10, 20, 30]⟩ : Tup Nat).Distinct id := by simp [Tup.Distinct]
+
+/-- the store-level hypotheses are met by what the constructors build: `ArrS.new`, `LstS.new`, `TupS.new` hold the list-level
+    containers with the same elements -/
+example : (ArrS.new [1, 2, 3]).Abs (Arr.new [1, 2, 3]) ∧ (LstS.new [1, 2, 3]).1.Abs (Lst.empty.concat [1, 2, 3]).1 ∧
+    (TupS.new [1, 2, 3]).Abs ⟨[1, 2, 3]⟩ := ⟨ArrS.new_abs _, (LstS.new_abs _).1, TupS.new_abs _⟩
+
+/-- a concrete store-level run: the cells after `push_at 9 at 1`, `pop_at 0`, `push 5` on `[1,2,3]` (capacity 3 → 6) -/
+example : ((runOps ArrS.step (ArrS.new [1, 2, 3]) [.pushAt 9 1, .popAt 0, .push 5]).1.cells.toList,
+    (runOps ArrS.step (ArrS.new [1, 2, 3]) [.pushAt 9 1, .popAt 0, .push 5]).1.nitems) =
+    ([some 9, some 2, some 3, some 5, none, none], 4) := by decide
+
+/-- a state that meets the hypotheses of `C04_push_own_element_partial`, and one of `C04_tuple_not_on_heap` -/
+example : (⟨[1, 2, 3], 8⟩ : Arr Nat).get 0 = .ok 1 ∧ (⟨[1, 2, 3], 8⟩ : Arr Nat).nitems < 8 := by decide
+example : (⟨#[some (.item 1), some .term], false⟩ : TupS Nat).Cells ⟨[1]⟩ := by
+  refine ⟨rfl, ?_⟩
+  intro k hk
+  have : k = 0 ∨ k = 1 := by simp [TupS.enc] at hk; omega
+  rcases this with rfl | rfl <;> rfl
 
 end Cello.Seq
